@@ -232,7 +232,7 @@ static void run_case(long long idx, const std::string& desc, const std::string& 
 }
 
 // ---- the enumeration ---------------------------------------------------------
-struct Seed { std::string name, bytes; };
+struct Seed { std::string name, bytes; bool primary = true; };  // non-primary (thorough tier only): reduced operator set, see gen_seed
 
 static const long long kInteresting64[] = {INT64_MIN, INT64_MIN + 1, -(1LL << 59) - 1, -(1LL << 59), -(1LL << 59) + 1, -1, 0, (1LL << 31) - 1, 1LL << 59, INT64_MAX - 1, INT64_MAX};
 static const unsigned long long kCounts[] = {0, 1, 2, 255, 256, 257, 65535, 1u << 20, 0x7fffffffULL, 0x80000000ULL, 0xffffffffULL};
@@ -261,11 +261,16 @@ static void gen_seed(const Seed& sd, const std::vector<Seed>& all, const std::ve
   const std::string& s = sd.bytes;
   const Layout L = layout_of(s);
   const Dev nodev;
+  // A non-primary seed (thorough tier: every distinct shipped zone beyond the primary set) gets every operator, but
+  // bit flips only outside the transition-time / type-index arrays (the time and type-index operators cover those),
+  // every 16th corpus footer, the sub-sampled count pairs, and splices against the primary seeds only.
+  const bool lite = !sd.primary;
+  if (lite) thorough = false;
   CASE("pristine", (void)0);
   // O1 truncation to every length
   for (size_t n = 0; n < s.size(); ++n) CASE("truncate:" + std::to_string(n), m.resize(n));
   // O8 every byte: 8 bit flips, 0x00, 0xff
-  const bool small = s.size() <= 4096;
+  const bool small = s.size() <= 4096 && !lite;
   for (size_t i = 0; i < s.size(); ++i) {
     if (!small && !(i < 100 || (L.ok && i >= L.h2 && i < L.h2 + 44) || (L.ok && i >= L.tt))) continue;
     for (int bit = 0; bit < 8; ++bit) CASE("bitflip:" + std::to_string(i) + "." + std::to_string(bit), m[i] = static_cast<char>(m[i] ^ (1 << bit)));
@@ -337,13 +342,16 @@ static void gen_seed(const Seed& sd, const std::vector<Seed>& all, const std::ve
   for (size_t i = 0; i < L.charcnt; ++i) if (s[L.chars + i] == '\0') CASE("abbrnul:" + std::to_string(i), m[L.chars + i] = 'X');
   // O9 footer replacement
   if (L.h2) {
-    for (size_t k = 0; k < footers.size(); ++k) CASE("footer:" + std::to_string(k), m = s.substr(0, L.footer) + "\n" + footers[k] + "\n");
+    for (size_t k = 0; k < footers.size(); ++k) {
+      if (lite && (k % 16) != 0 && k + 40 < footers.size()) continue;
+      CASE("footer:" + std::to_string(k), m = s.substr(0, L.footer) + "\n" + footers[k] + "\n");
+    }
     CASE("footer:unterminated", m = s.substr(0, L.footer) + "\n" + "EST5EDT,M3.2.0,M11.1.0");
     CASE("footer:no-leading-newline", m = s.substr(0, L.footer) + "EST5\n");
   }
   // O10 splice: counts / headers of another seed over this seed's body
   for (const Seed& o : all) {
-    if (&o == &sd) continue;
+    if (&o == &sd || (lite && !o.primary)) continue;
     const Layout LO = layout_of(o.bytes);
     if (!LO.ok) continue;
     CASE("splice-counts-of:" + o.name, { for (int k = 0; k < 24; ++k) { m[20 + k] = o.bytes[20 + k]; if (L.h2 && LO.h2) m[L.h2 + 20 + k] = o.bytes[LO.h2 + 20 + k]; } });
@@ -466,9 +474,13 @@ int main(int argc, char** argv) {
   const std::string dir = a.repo + "/testdata/zoneinfo";
   std::vector<Seed> seeds;
   const char* quick_names[] = {"UTC", "Etc/GMT+5", "America/New_York", "Europe/Lisbon", "Asia/Kathmandu", "Australia/Lord_Howe", "Africa/Monrovia", "Pacific/Apia", "America/Nuuk", "Asia/Gaza"};
-  if (a.thorough()) { for (auto& n : glue::shipped_zone_names(dir)) seeds.push_back({n, glue::read_file(dir + "/" + n)}); }
-  else for (const char* n : quick_names) { std::string b = glue::read_file(dir + "/" + n); if (!b.empty()) seeds.push_back({n, b}); }
+  std::set<std::string> have;
+  for (const char* n : quick_names) { std::string b = glue::read_file(dir + "/" + n); if (!b.empty() && have.insert(b).second) seeds.push_back({n, b}); }
   for (auto& s : synthetic_seeds(a.thorough())) seeds.push_back(s);
+  // thorough: every DISTINCT shipped zone file as a further (non-primary) seed
+  if (a.thorough()) for (auto& n : glue::shipped_zone_names(dir)) { std::string b = glue::read_file(dir + "/" + n); if (!b.empty() && have.insert(b).second) { seeds.push_back({n, b}); seeds.back().primary = false; } }
+  total.counters["seeds_primary"] = 0;
+  for (auto& s : seeds) if (s.primary) total.counters["seeds_primary"]++;
   total.counters["seeds"] = seeds.size();
   // footer corpus: C16's sentences (valid and near-miss) + consumer-stress footers
   std::vector<std::string> sent, acc, footers;
@@ -494,14 +506,20 @@ int main(int argc, char** argv) {
     const long long want = atoll(a.get("--case").c_str());
     Sel sel; sel.only = want;
     auto one = [&](long long idx, const std::string& d, const std::string& b, const Dev& dv) { printf("case %lld: %s (%zu bytes) %s\n", idx, d.c_str(), b.size(), facts_of(b).c_str()); run_case(idx, d, b, dv, total); };
-    for (auto& sd : seeds) gen_seed(sd, seeds, footers, a.thorough(), cap, sel, one);
     gen_degenerate(a.thorough(), cap, sel, one);
+    for (auto& sd : seeds) gen_seed(sd, seeds, footers, a.thorough(), cap, sel, one);
     return hz::finish(a, total);
   }
   const int nshards = 256;
   hz::PoolOpts po; po.workers = a.workers; po.hang_s = 8; po.hang_is_violation = true; po.max_restarts = 60; po.crash_is_violation = g_primary;
   hz::run_shards(nshards, po, a.workdir, [&](const hz::ShardCtl& ctl, hz::Result& r) {
     Sel sel; sel.shard = ctl.shard; sel.nshards = nshards; sel.skip = &ctl.skip;
+    // the fixed-size degenerate family first, then the seeds in order: a deadline then only cuts a suffix of the
+    // index space, and every index below the cut denotes the same input in every build
+    gen_degenerate(a.thorough(), cap, sel, [&](long long me, const std::string& d, const std::string& b, const Dev& dv) {
+      hz::begin_case(me, d + " " + facts_of(b));
+      run_case(me, d, b, dv, r);
+    });
     for (auto& sd : seeds) {
       if (a.time_up()) { r.exhaustive = false; r.note("deadline before seed " + sd.name); break; }
       gen_seed(sd, seeds, footers, a.thorough(), cap, sel, [&](long long me, const std::string& d, const std::string& b, const Dev& dv) {
@@ -509,10 +527,6 @@ int main(int argc, char** argv) {
         run_case(me, d, b, dv, r);
       });
     }
-    gen_degenerate(a.thorough(), cap, sel, [&](long long me, const std::string& d, const std::string& b, const Dev& dv) {
-      hz::begin_case(me, d + " " + facts_of(b));
-      run_case(me, d, b, dv, r);
-    });
     if (ctl.shard == 0) r.counters["cases_total"] = sel.next;
   }, &total, [&](long long cid, const std::string&) -> std::vector<std::string> { return {"--case", std::to_string(cid)}; });
   total.sample("{\"case\":\"time:235=9223372036854775807:America/New_York\",\"meaning\":\"last 8-byte transition time of the seed set to INT64_MAX\"}");
